@@ -44,7 +44,7 @@ ASSUMPTIONS = [
     "fourier_resample only shape/dtype kind/calibration are compared with the model (values: C06)",
     "calibration after fourier_resample is compared with relative tolerance 1e-12 (the code divides by the rounded float m/n)",
     "resample factors are dyadic or kept 1e-6 away from a rounding tie of n*f",
-    "index expressions hold at most one list in the valid stream; two-list expressions only compare the error kind",
+    "index expressions hold at most one list in the valid stream; for two-list expressions (outside the quantifier) only the fact that both model and implementation raise is compared",
 ]
 EXPLANATION = ("Theorems in Props/C03.lean are about Model/Dataset.lean (+ Model/NdIndex.lean, Model/Resample.lean); every run "
                "drives the real classes and the model with the same histories and compares every intermediate state.")
@@ -786,6 +786,11 @@ def run_history(ctx, drv, new_req, ops_or_gen, stream="history", max_ops=12):
         case = {"new": new_req, "ops": case_ops[:j]}
         mres = ans["r"]
         ires = rec["res"]
+        if rq.get("op") == "getitem" and sum(1 for it in rq["ix"] if isinstance(it, dict) and "l" in it) >= 2 and "err" in mres and "err" in ires:
+            # two or more lists: outside the property's quantifier (pointwise indexing, no axis calibration exists); both sides
+            # must raise, the *kind* of NumPy's error (IndexError vs the later ValueError) depends on NumPy-internal check order
+            ctx.dist["getitem:multi-list-raises"] += 1
+            continue
         if ("err" in mres) != ("err" in ires) or mres.get("err") != ires.get("err"):
             ctx.disagree(stream, case, {"r": {"err": mres.get("err")} if "err" in mres else "ok"},
                          {"r": {"err": ires.get("err")} if "err" in ires else "ok"}, note=f"step {j} {rq['op']}: outcome")
